@@ -80,7 +80,7 @@ PURE_INT_METHODS = {"trailing_zeros", "leading_zeros", "count_ones", "to_le", "f
                     "next_power_of_two", "wrapping_shl", "wrapping_shr", "abs_diff",
                     "saturating_sub", "saturating_add", "checked_sub", "overflowing_sub",
                     "to_ne_bytes", "from_ne_bytes", "to_le_bytes", "from_le_bytes"}
-PURE_INTRINSIC_PREFIXES = ("core::core_arch::x86::bmi2::", "core::core_arch::x86_64::bmi2::",
+PURE_INTRINSIC_PREFIXES = ("core::core_arch::x86::bmi2::", "core::core_arch::x86_64::bmi2::", "std::arch::x86_64::_p", "std::arch::x86::_p", "core::arch::x86_64::_p",
                            "std::intrinsics::", "core::intrinsics::", "std::mem::transmute",
                            "core::cmp::Ord::", "std::cmp::Ord::", "std::cmp::max", "std::cmp::min",
                            "core::cmp::max", "core::cmp::min")
@@ -145,6 +145,7 @@ class Engine:
         self.notes = []
         self.access_hook = None     # f(kind, place_term, facts, loc) for places rooted at a static
         self.value_hook = None      # f(term, loc, facts) for every computed rvalue
+        self.trait_dispatch = None  # f(trait, method) -> body path, for dyn / generic-Self calls
         self.branches = []          # (discriminant term, loc) of every non-constant SwitchInt
         self.loc = None
 
@@ -627,6 +628,13 @@ class Engine:
             finfo = {}
         else:
             name = callee_name(func); finfo = func
+        dynamic = bool(finfo) and (finfo.get("inst") == "virtual" or ("trait" in finfo and "resolved" not in finfo))
+        if dynamic:
+            # trait method called on `dyn Trait` or on a generic Self: the body named by the path is
+            # only the trait's default; never inline it unless the caller of the engine says which
+            # impl is meant
+            tgt = self.trait_dispatch(finfo.get("trait"), finfo.get("method")) if self.trait_dispatch else None
+            name = tgt if tgt else "dyn:%s::%s" % (finfo.get("trait"), finfo.get("method"))
         diverges = t["target"] is None
         ev = self.record_event(site, name, args, st.facts, t["at"], func)
         if diverges:
